@@ -66,6 +66,17 @@ func scenC18(e *Env) func() {
 		}
 		p.Callers = append(p.Callers, cs)
 	}
+	if p.IdleMs <= 1000 && e.Chance(40) {
+		// calls that start at the instants the idle-connection cleaner wakes up (multiples of
+		// MaxIdleConnDuration after the first connection): sweep and acquisition interleave
+		for ci := range p.Callers {
+			for i := range p.Callers[ci] {
+				if e.Chance(50) {
+					p.Callers[ci][i].GapMs = p.IdleMs * Pick(e, 1, 1, 2, 3)
+				}
+			}
+		}
+	}
 	if e.Chance(20) {
 		p.TLS = true
 		for i := 0; i < 16; i++ {
